@@ -66,7 +66,7 @@ type sigSpec struct {
 }
 
 type c06Case struct {
-	Target    string `json:"target"` // gnosis-sigs | service-sigs | gnosis-basic | gnosis-keyper | accessnode
+	Target    string `json:"target"`  // gnosis-sigs | service-sigs | gnosis-basic | gnosis-keyper | accessnode
 	Keypers   []int  `json:"keypers"` // universe key per keyper slot, -1: a string that is no address
 	Threshold int32  `json:"threshold"`
 	NoSet     bool   `json:"no_set,omitempty"` // gnosis-keyper / accessnode: no keyper set for the eon
@@ -554,6 +554,29 @@ func otherChecksPass(c *c06Case) bool {
 	return false
 }
 
+// signedOverOtherIdentityList: the signer list and the signature count fit the rule, every
+// signature is by the listed keyper, and what each of them signed differs from the message's own
+// data in the identity list only.
+func signedOverOtherIdentityList(c *c06Case) bool {
+	if len(c.Sigs) != len(c.Signers) || len(c.Sigs) == 0 {
+		return false
+	}
+	own := c.ownTuple()
+	for i, s := range c.Sigs {
+		if c.Signers[i] >= uint64(len(c.Keypers)) || s.Kind != "by" || s.T == nil || s.Key != c.Keypers[c.Signers[i]] {
+			return false
+		}
+		t := *s.T
+		if t.Flavour != own.Flavour || t.Inst != own.Inst || t.Eon != own.Eon || t.Slot != own.Slot || t.Txp != own.Txp {
+			return false
+		}
+		if reflect.DeepEqual(t.Ids, own.Ids) {
+			return false
+		}
+	}
+	return true
+}
+
 func site(c *c06Case) string {
 	switch c.Target {
 	case "gnosis-sigs":
@@ -597,6 +620,9 @@ func oracle(run *vh.Run, c *c06Case, o observed) {
 			key = "C06:service:one-of-signers-signatures-empty-admitted"
 		case len(c.Sigs) < len(c.Signers):
 			key = "C06:" + site(c) + ":fewer-signatures-than-signers-accepted"
+		case why == "signature-over-other-data" && signedOverOtherIdentityList(c):
+			key = "C06:" + site(c) + ":accepted-with-unsigned-identity-list"
+			why = "every listed signer signed the same instance, eon, slot and tx pointer but another identity list than the one the message carries"
 		}
 		violate(run, vh.Violation{Key: key, What: "message accepted although the signature rule fails: " + why, Case: c, Observed: o, Expected: "reject"})
 		return
@@ -1052,7 +1078,101 @@ func enumSignatureAlphabet(run *vh.Run, target string, n int) {
 	}
 }
 
+// relength returns the identity with bytes appended (n > 0) or with up to -n trailing zero
+// bytes dropped (n < 0); ok=false when nothing could be dropped.
+func relength(id string, n int, fill byte) (string, bool) {
+	b, _ := hex.DecodeString(id)
+	if n > 0 {
+		for i := 0; i < n; i++ {
+			b = append(b, fill)
+		}
+		return hex.EncodeToString(b), true
+	}
+	dropped := 0
+	for dropped < -n && len(b) > 0 && b[len(b)-1] == 0 {
+		b = b[:len(b)-1]
+		dropped++
+	}
+	return hex.EncodeToString(b), dropped > 0
+}
+
+// identityLengthFamily: a genuine threshold of signatures over identities of the proper width;
+// the message carries the same identities except that one (or two) of them differ IN LENGTH
+// only: 1..3 bytes appended (zero or non-zero), trailing zero bytes dropped, both in one
+// message. The signed data is then not the message's own, so the rule fails.
+func identityLengthFamily(run *vh.Run, target string) {
+	type variant struct {
+		name string
+		f    func(ids []string) bool
+	}
+	one := func(pos, n int, fill byte) func([]string) bool {
+		return func(ids []string) bool {
+			v, ok := relength(ids[pos], n, fill)
+			ids[pos] = v
+			return ok
+		}
+	}
+	var vs []variant
+	for pos := 0; pos < 2; pos++ {
+		for n := 1; n <= 3; n++ {
+			vs = append(vs, variant{fmt.Sprintf("id%d+%d zero", pos, n), one(pos, n, 0)})
+			vs = append(vs, variant{fmt.Sprintf("id%d+%d nonzero", pos, n), one(pos, n, 0x5a)})
+		}
+		for n := 1; n <= 3; n++ {
+			vs = append(vs, variant{fmt.Sprintf("id%d-%d", pos, n), one(pos, -n, 0)})
+		}
+	}
+	vs = append(vs, variant{"id0+1 id1-1", func(ids []string) bool {
+		a, _ := relength(ids[0], 1, 0x33)
+		b, ok := relength(ids[1], -1, 0)
+		ids[0], ids[1] = a, b
+		return ok
+	}})
+	vs = append(vs, variant{"id0-2 id1+2", func(ids []string) bool {
+		a, ok := relength(ids[0], -2, 0)
+		b, _ := relength(ids[1], 2, 0)
+		ids[0], ids[1] = a, b
+		return ok
+	}})
+	// signed identities: ending in zero bytes (so that a shortened form exists) and ending in
+	// non-zero bytes
+	w := idWidth(baseCase(target, 1, 1).flavour())
+	zeroTail := mkIds(2, w, 0x01)
+	nonzeroTail := mkIds(2, w, 0x01)
+	for i := range nonzeroTail {
+		b, _ := hex.DecodeString(nonzeroTail[i])
+		b[w-1], b[w-2] = 0x7f, 0x01
+		nonzeroTail[i] = hex.EncodeToString(b)
+	}
+	for _, signed := range [][]string{zeroTail, nonzeroTail} {
+		for _, set := range []struct {
+			n, t    int
+			signers []uint64
+		}{{1, 1, []uint64{0}}, {3, 2, []uint64{0, 2}}, {3, 3, []uint64{0, 1, 2}}} {
+			for _, v := range vs {
+				c := baseCase(target, set.n, int32(set.t))
+				c.Ids = append([]string{}, signed...)
+				c.Signers = set.signers
+				for p := range c.Signers {
+					c.Sigs = append(c.Sigs, goodSig(c, p)) // over the identities of the proper width
+					c.Sigs[p].Why = "listed-signer-over-identities-of-other-length"
+				}
+				ids := append([]string{}, signed...)
+				if !v.f(ids) {
+					continue
+				}
+				c.Ids = ids
+				run.Dist["identity-length:"+v.name]++
+				runCase(run, c)
+			}
+		}
+	}
+}
+
 func forced(run *vh.Run) {
+	for _, target := range []string{"gnosis-sigs", "gnosis-keyper", "accessnode", "service-sigs"} {
+		identityLengthFamily(run, target)
+	}
 	// int32 cast of the signer count, thresholds at the edges of int32, negative threshold
 	for _, target := range []string{"gnosis-sigs", "service-sigs", "accessnode", "gnosis-keyper"} {
 		for _, th := range []int32{-1, math.MaxInt32, math.MinInt32} {
@@ -1244,6 +1364,15 @@ func randomCase(r *vh.RNG) *c06Case {
 	if target == "accessnode" || target == "gnosis-keyper" {
 		if r.Chance(1, 20) {
 			c.NoSet = true
+		}
+	}
+	// the message's identities differ from the signed ones in length only
+	if len(c.Ids) > 0 && hashableTuple(c.ownTuple()) && r.Chance(1, 8) {
+		p := r.Intn(len(c.Ids))
+		if v, ok := relength(c.Ids[p], vh.Pick(r, 1, 2, 3, -1, -2), byte(r.Intn(2)*0x41)); ok {
+			ids := append([]string{}, c.Ids...)
+			ids[p] = v
+			c.Ids = ids
 		}
 	}
 	return c
